@@ -1053,18 +1053,52 @@ func interpreterTables() {
 	sort.Strings(ranges)
 	emit("Definition gen_map_ranges : list string := %s.\n\n", coqStrList(ranges))
 
-	// appends whose first argument is a slice taken from the arguments (C11)
+	// appends whose first argument is (a slice of) a value taken from arguments[...] by a type assertion (C11)
 	var appends []string
-	for k, f := range files[3:4] {
-		_ = k
+	rootIdent := func(e ast.Expr) string {
+		for {
+			switch x := e.(type) {
+			case *ast.Ident:
+				return x.Name
+			case *ast.SliceExpr:
+				e = x.X
+			case *ast.IndexExpr:
+				e = x.X
+			case *ast.ParenExpr:
+				e = x.X
+			default:
+				return ""
+			}
+		}
+	}
+	for k, f := range files[2:6] {
 		for name, fd := range funcDecls(f) {
 			if fd.Body == nil {
 				continue
 			}
+			fromArgs := map[string]bool{}
+			ast.Inspect(fd.Body, func(n ast.Node) bool {
+				if a, ok := n.(*ast.AssignStmt); ok && len(a.Rhs) == 1 {
+					if ta, ok := a.Rhs[0].(*ast.TypeAssertExpr); ok && rootIdent(ta.X) == "arguments" {
+						if id, ok := a.Lhs[0].(*ast.Ident); ok {
+							fromArgs[id.Name] = true
+						}
+					}
+					if len(a.Lhs) == 1 {
+						if id, ok := a.Lhs[0].(*ast.Ident); ok && rootIdent(a.Rhs[0]) == "arguments" {
+							fromArgs[id.Name] = true
+						}
+					}
+				}
+				return true
+			})
 			ast.Inspect(fd.Body, func(n ast.Node) bool {
 				if c, ok := n.(*ast.CallExpr); ok {
 					if id, ok := c.Fun.(*ast.Ident); ok && id.Name == "append" && len(c.Args) > 0 {
-						appends = append(appends, name+":"+exprStr(c.Args[0]))
+						r := rootIdent(c.Args[0])
+						if fromArgs[r] || r == "arguments" {
+							appends = append(appends, rels[k+2]+":"+name+":"+exprStr(c.Args[0]))
+						}
 					}
 				}
 				return true
@@ -1072,7 +1106,7 @@ func interpreterTables() {
 		}
 	}
 	sort.Strings(appends)
-	emit("Definition gen_array_appends : list string := %s.\n\n", coqStrList(appends))
+	emit("Definition gen_appends_onto_argument : list string := %s.\n\n", coqStrList(appends))
 }
 
 // ---------------------------------------------------------------- main.go
